@@ -325,9 +325,13 @@ def run_task(task):
             bad = np.where(m > tol)[0]
             if bad.size:
                 i = int(bad[np.argmax(m[bad])])
+                where = {"t": t}
+                if f["eos"] == "object" and "velocity" in sol.dtype.names:
+                    # black-box Noh: which side of the shock the worst point is on (the inflow region has u = u0 != 0)
+                    where["region"] = "unshocked" if float(sol["velocity"][i]) != 0.0 else "shocked"
                 res["violations"].append({
                     "solver": f["name"], "cfg": cfg, "clause": clause,
-                    "where": {"t": t}, "value": float(m[i]), "tol": tol,
+                    "where": where, "value": float(m[i]), "tol": tol,
                     "detail": {"x": float(pts[i]), "lhs": float(np.asarray(lhs)[i]), "rhs": float(np.asarray(rhs)[i]),
                                "n_bad_points": int(bad.size), "n_points": int(len(pts))}})
         for i in np.where(anynt)[0]:
